@@ -1083,7 +1083,9 @@ def linop(cx):
         oname = ["default", "auto", "greedy"][int(rng.integers(0, 3))]
         base = dict(i=i, nt=nt, dt=dt, e=spx.exponent, has_exponent=has_e, hyper=sp.hyper, self_trace=sp.self_trace,
                     left=list(left), right=list(right), how=how, opt=oname, complex=cplx,
-                    scalar_operator=not (left or right))
+                    scalar_operator=not (left or right),
+                    empty_side_and_size1_label=bool((not left or not right) and len(left + right) >= 2
+                                                    and any(sp.sizes[x] == 1 for x in left + right)))
         rtol = _rtol(dt)
 
         def build(spx=spx, left=left, right=right, how=how, oname=oname):
@@ -1208,3 +1210,257 @@ def linop(cx):
 
                 cx.check(N_LO + "trace() == trace of the dense reference (x 10**exponent)" + (COMPANION if comp else ""),
                          base, thunk)
+
+
+# ----------------------------------------------------------------------------------------------
+# driver 5: 1D networks -- structured contraction (contract(...) / ^ ... / slices / contract_structured)
+# ----------------------------------------------------------------------------------------------
+
+N_S_FULL = "1D structured: contract(...) / ^ ... / contract_structured over all sites == einsum reference x 10**exponent"
+N_S_PART = "1D structured: contracting a slice of sites leaves a network with the same value"
+N_S_COMB = "1D: bra & ket, bra | op | ket, @ and overlap/norm == independent dense expectation x 10**(sum of exponents)"
+N_S_DENSE = "1D: MPS.to_dense() / MPO.to_dense() default index groupings == einsum reference x 10**exponent"
+N_S_TRACE = "1D: MPO.trace() == trace of the dense reference x 10**exponent"
+
+
+def _chain_arrays(rng, L, cyclic, dtype, nphys, maxbond=3):
+    """arrays of an MPS (nphys=1, shape 'lrp') or MPO (nphys=2, shape 'lrud'); open ends have no dangling bond"""
+    nb = L if cyclic else L - 1
+    bonds = [int(rng.integers(1, maxbond + 1)) for _ in range(nb)]
+    phys = [int(rng.choice([1, 2, 2, 3])) for _ in range(L)]
+    arrays = []
+    for k in range(L):
+        if cyclic:
+            shape = (bonds[k - 1], bonds[k])
+        else:
+            shape = (() if k == 0 else (bonds[k - 1],)) + (() if k == L - 1 else (bonds[k],))
+        arrays.append(_rand_array(rng, shape + (phys[k],) * nphys, dtype))
+    return arrays, phys
+
+
+def _spec_of(tn, dtype):
+    """snapshot of a quimb network as plain data (arrays copied)"""
+    ts = list(tn.tensor_map.values())
+    return Spec([np.array(t.data) for t in ts], [tuple(t.inds) for t in ts], [tuple(t.tags) for t in ts],
+                float(tn.exponent), dtype)
+
+
+@driver("C01", "structured-1d", chunks=4, timeout=200,
+        bound="MPS / MPO of 1-6 sites (quick 1-5), open and cyclic, bond dims 1-3, physical dims {1,2,3}, 4 dtypes, stored "
+              "exponent as above; <bra|ket> and <bra|op|ket> networks (2-3 tensors per site), networks with already merged "
+              "sites; contract(...), ^ ..., contract_structured with structure_bsz {1,2,3,5}, strip_exponent, inplace, "
+              "output_inds permutations, equalize_norms; slices (plain, open-ended, reversed with ..., wrapping for cyclic); "
+              "to_dense defaults, MPO.trace, norm, overlap, @")
+def structured(cx):
+    import quimb.tensor as qtn
+
+    rng = cx.rng
+    Ls = [1, 2, 3, 4, 5] if cx.quick else [1, 2, 3, 4, 5, 6]
+    reps = 2 if cx.quick else 10
+    grid = [(L, cyc, dt, ei, r) for L in Ls for cyc in (False, True) for dt in DTYPES for ei in range(5)
+            for r in range(reps)]
+    for i, (L, cyc, dt, ei, r) in enumerate(grid):
+        exps = _exponents(dt, cx.quick)
+        if ei >= len(exps):
+            continue
+        if not cx.mine():
+            continue
+        if cx.out_of_time():
+            cx.inconclusive.append("structured-1d: time budget exhausted before the grid was finished")
+            return
+        e = exps[ei]
+        rtol = _rtol(dt)
+        kind = ["mps", "mpo", "braket", "braopket", "merged-mps"][int(rng.integers(0, 5))]
+        a1, phys = _chain_arrays(rng, L, cyc, dt, 1)
+        a2 = [_rand_array(rng, a.shape, dt) for a in a1]
+        ao, _ = _chain_arrays(rng, L, cyc, dt, 2)
+        # make the operator's physical dims match the states'
+        ao = [_rand_array(rng, a.shape[:-2] + (phys[k], phys[k]), dt) for k, a in enumerate(ao)]
+        e_ket, e_bra = e, [0.0, 0.5][int(rng.integers(0, 2))]
+        merge = sorted(int(v) for v in rng.choice(L, size=2, replace=False)) if L >= 2 else None
+        base = dict(i=i, L=L, cyclic=cyc, dt=dt, e=e, has_exponent=bool(e != 0.0), kind=kind)
+
+        def build(kind=kind, a1=a1, a2=a2, ao=ao, e_ket=e_ket, e_bra=e_bra, merge=merge, L=L):
+            """-> (network, independent expected full value or None)"""
+            ket = qtn.MatrixProductState([a.copy() for a in a1], shape="lrp")
+            ket.exponent = e_ket
+            if kind in ("mps", "merged-mps"):
+                if kind == "merged-mps" and merge is not None:
+                    ket.contract_tags_([ket.site_tag(merge[0]), ket.site_tag(merge[1])])
+                return ket, None
+            if kind == "mpo":
+                op = qtn.MatrixProductOperator([a.copy() for a in ao], shape="lrud")
+                op.exponent = e_ket
+                return op, None
+            bra = qtn.MatrixProductState([a.copy() for a in a2], shape="lrp")
+            bra.exponent = e_bra
+            dk, _ = den_tn(ket, [f"k{k}" for k in range(L)])
+            db, _ = den_tn(bra, [f"k{k}" for k in range(L)])
+            if kind == "braket":
+                return bra.H & ket, np.sum(np.conj(db) * dk)
+            op = qtn.MatrixProductOperator([a.copy() for a in ao], shape="lrud", upper_ind_id="k{}", lower_ind_id="b{}")
+            op.exponent = -0.25
+            do_, _ = den_tn(op, [f"k{k}" for k in range(L)] + [f"b{k}" for k in range(L)])
+            ketb = ket.reindex_sites("b{}")
+            n = L
+            val = np.einsum(np.conj(db), list(range(n)), do_, list(range(2 * n)), dk, list(range(n, 2 * n)), [])
+            return (bra.H | op | ketb), val
+
+        # ---- independent value of the combined networks ------------------------------------------------------
+        if kind in ("braket", "braopket"):
+            def thunk():
+                tn, val = build()
+                sp = _spec_of(tn, dt)
+                ref, scale = sp.ref(())
+                # first: the combined network object denotes the independent value (exponents add up)
+                err = _cmp(ref, val, scale, 10 * rtol, "denotation of the combined network vs dense expectation")
+                if err:
+                    return err
+                if not isinstance(tn, qtn.TensorNetwork1D):
+                    return f"combined network is a {type(tn).__name__}, not a TensorNetwork1D"
+                return _cmp(tn ^ ..., val, scale, 10 * rtol, "combined ^ ...")
+
+            cx.check(N_S_COMB, base, thunk)
+            if kind == "braket":
+                def thunk(a1=a1, a2=a2, e_ket=e_ket, e_bra=e_bra):
+                    ket = qtn.MatrixProductState([a.copy() for a in a1], shape="lrp")
+                    bra = qtn.MatrixProductState([a.copy() for a in a2], shape="lrp")
+                    ket.exponent, bra.exponent = e_ket, e_bra
+                    labs = [f"k{k}" for k in range(L)]
+                    (dk, sk), (db, sb) = den_tn(ket, labs), den_tn(bra, labs)
+                    val, sc = np.sum(np.conj(db) * dk), np.size(dk) * sk * sb
+                    for nm, got, ref, s_ in (("bra.H @ ket", lambda: bra.H @ ket, val, sc),
+                                             ("ket.overlap(bra)", lambda: ket.overlap(bra), val, sc),
+                                             ("ket.norm()", lambda: ket.norm(), np.sqrt(np.sum(np.abs(dk) ** 2)),
+                                              np.size(dk) * sk * sk / max(np.sqrt(np.sum(np.abs(dk) ** 2)), 1e-300)),
+                                             ("ket.H @ ket", lambda: ket.H @ ket, np.sum(np.abs(dk) ** 2), np.size(dk) * sk * sk)):
+                        err = _cmp(got(), ref, s_, 10 * rtol, nm)
+                        if err:
+                            return err
+
+                cx.check(N_S_COMB, dict(base, routes="@ / overlap / norm"), thunk)
+        # ---- to_dense defaults / MPO.trace ----------------------------------------------------------------------
+        if kind in ("mps", "mpo"):
+            def thunk():
+                tn, _ = build()
+                sp = _spec_of(tn, dt)
+                if kind == "mps":
+                    labs = [f"k{k}" for k in range(L)]
+                    ref, scale = sp.ref(labs)
+                    return _cmp(tn.to_dense(), ref.reshape(-1, 1), scale, rtol, "MPS.to_dense()")
+                up, lo = [f"k{k}" for k in range(L)], [f"b{k}" for k in range(L)]
+                ref, scale = sp.ref(up + lo)
+                d = int(np.prod(phys))
+                return _cmp(tn.to_dense(), ref.reshape(d, d), scale, rtol, "MPO.to_dense()")
+
+            cx.check(N_S_DENSE, base, thunk)
+            if kind == "mpo":
+                for comp in ((False, True) if e != 0.0 else (False,)):
+                    def thunk(comp=comp):
+                        tn, _ = build()
+                        sp = _spec_of(tn, dt)
+                        up, lo = [f"k{k}" for k in range(L)], [f"b{k}" for k in range(L)]
+                        ref, scale = sp.ref(up + lo)
+                        d = int(np.prod(phys))
+                        return _cmp(tn.trace(), np.trace(ref.reshape(d, d)), scale * d, 4 * rtol, "MPO.trace()",
+                                    alt_factor=10.0 ** sp.exponent if comp else None)
+
+                    cx.check(N_S_TRACE + (COMPANION if comp else ""), base, thunk)
+        # ---- full structured contraction -------------------------------------------------------------------------
+        for s in range(4):
+            bsz = [1, 2, 3, 5][int(rng.integers(0, 4))]
+            strip, inplace = bool(rng.integers(0, 2)), s == 3
+            eq = ["auto", True, False][int(rng.integers(0, 3))]
+            form = ["contract(...)", "^ ...", "contract_structured(...)", "contract(slice(0, L))", "contract(slice(None))"][
+                int(rng.integers(0, 5))] if s else "^ ..."
+            permute = bool(rng.integers(0, 2))
+            oname = ["default", "auto", "greedy"][int(rng.integers(0, 3))]
+            pseed = int(rng.integers(0, 1 << 30))
+            p = dict(base, form=form, bsz=bsz, strip=strip, inplace=inplace, eq=eq, permute_out=permute, opt=oname, s=s)
+
+            def thunk(bsz=bsz, strip=strip, inplace=inplace, eq=eq, form=form, permute=permute, oname=oname, pseed=pseed):
+                tn, _ = build()
+                sp = _spec_of(tn, dt)
+                out = None
+                kw = dict(structure_bsz=bsz, strip_exponent=strip, inplace=inplace, equalize_norms=eq)
+                if oname != "default":
+                    kw["optimize"] = oname
+                if permute:
+                    out = tuple(np.random.default_rng(pseed).permutation(list(sp.inferred))) if sp.inferred else ()
+                    out = tuple(str(x) for x in out)
+                    kw["output_inds"] = out
+                if form == "^ ...":
+                    if inplace:
+                        keep = tn
+                        tn ^= ...
+                        if tn is not keep:
+                            return "^= rebound the name"
+                        res = tn
+                    else:
+                        res = tn ^ ...
+                    strip_, out = False, None
+                elif form == "contract(...)":
+                    res, strip_ = tn.contract(..., **kw), strip
+                elif form == "contract_structured(...)":
+                    res, strip_ = tn.contract_structured(..., **kw), strip
+                elif form == "contract(slice(0, L))":
+                    res, strip_ = tn.contract(slice(0, L), **kw), strip
+                else:
+                    res, strip_ = tn.contract(slice(None), **kw), strip
+                err = _judge(qtn, res, sp, out, strip_, expect="tn" if inplace else None)
+                if err or inplace:
+                    return err
+                return _judge(qtn, tn, sp, None, False, what="receiver after a non-in-place call")
+
+            cx.check(N_S_FULL, p, thunk)
+        # ---- slices --------------------------------------------------------------------------------------------
+        if L >= 2:
+            for s in range(4):
+                a = int(rng.integers(0, L - 1))
+                b = int(rng.integers(a + 1, L + 1))
+                forms = [("slice(a, b)", slice(a, b)), ("slice(None, b)", slice(None, b)), ("slice(a, None)", slice(a, None)),
+                         ("slice(..., a, -1)", slice(..., a, -1)), ("slice(b-1, a-1, -1)", slice(b - 1, a - 1, -1) if a > 0 else slice(a, b)),
+                         ("slice(a, b, 2)", slice(a, b, 2))]
+                if cyc:
+                    forms.append(("slice(a, b+L-1) wrapping", slice(a + 1, a + L)))
+                    forms.append(("slice(-2, 1) wrapping", slice(-2, 1)))
+                fname, sl = forms[int(rng.integers(0, len(forms)))]
+                bsz = [1, 2, 5][int(rng.integers(0, 3))]
+                strip, inplace = bool(rng.integers(0, 2)), bool(rng.integers(0, 2))
+                how = ["^", "contract", "contract_structured"][int(rng.integers(0, 3))]
+                p = dict(base, form=fname, a=a, b=b, bsz=bsz, strip=strip, inplace=inplace, how=how, s=s)
+
+                def thunk(sl=sl, fname=fname, a=a, b=b, bsz=bsz, strip=strip, inplace=inplace, how=how):
+                    tn, _ = build()
+                    sp = _spec_of(tn, dt)
+                    n0 = tn.num_tensors
+                    if how == "^":
+                        if inplace:
+                            keep = tn
+                            tn ^= sl
+                            if tn is not keep:
+                                return "^= rebound the name"
+                            res = tn
+                        else:
+                            res = tn ^ sl
+                    elif how == "contract":
+                        res = tn.contract(sl, structure_bsz=bsz, strip_exponent=strip, inplace=inplace)
+                    else:
+                        res = tn.contract_structured(sl, structure_bsz=bsz, strip_exponent=strip, inplace=inplace)
+                    if isinstance(res, qtn.TensorNetwork):
+                        # plain slice(a, b): the tensors carrying a site tag in [a, b) are merged into one
+                        if fname == "slice(a, b)":
+                            hit = sum(1 for tg in sp.tags if any(f"I{k}" in tg for k in range(a, b)))
+                            if res.num_tensors != n0 - hit + 1:
+                                return f"{res.num_tensors} tensors left, expected {n0 - hit + 1}"
+                        err = _judge(qtn, res, sp, None, False, what="value of the resulting network")
+                    else:
+                        # everything was merged: a tensor / scalar comes back (only when not in place)
+                        if inplace:
+                            return f"in-place call returned {type(res).__name__}"
+                        err = _judge(qtn, res, sp, None, strip and how != "^")
+                    if err or inplace:
+                        return err
+                    return _judge(qtn, tn, sp, None, False, what="receiver after a non-in-place call")
+
+                cx.check(N_S_PART, p, thunk)
